@@ -6,7 +6,7 @@
    request-body chunks and respond, response bodies yield chunks, the socket accepts bytes), each
    guarded by the test the code makes; an event whose guard is closed leaves the state alone.
    [std_cfg wbs r h431 fix] carries the constants extracted from the sources. *)
-From AV Require Import Lib.Base Gen.Consts H1.ReadBuf H1.ReadBufProofs H1.Flush H1.Gates H1.GatesCfg H1.GatesProofs Gen.DispatcherGuards H1.GuardsTie.
+From AV Require Import Lib.Base Gen.Consts H1.ReadBuf H1.ReadBufProofs H1.Flush H1.Gates H1.GatesCfg H1.GatesProofs H1.GatesPollProofs Gen.DispatcherGuards H1.GuardsTie.
 
 (* unparsed input: |read_buf| < MAX_BUFFER_SIZE + (largest single read), always *)
 Theorem C05_read_buf_bound : forall wbs r h431 fx (es : list ev),
@@ -167,4 +167,54 @@ Example C05_example :
   wb s = 154 /\ cpl s = Some 3036 /\ state s = SSendPayload /\ tgt_len s = 0 /\
   step c s (EvBodyChunk 64) = None /\
   wb (steps c s [EvAccept 100; EvBodyChunk 64]) = 118.
+Proof. vm_compute. repeat split. Qed.
+
+(* POLL LEVEL. [poll] (H1/Gates.v) composes read_available -> poll_request -> (EOF handling) ->
+   loop { poll_response ; poll_flush } -> epilogue the way Dispatcher::poll orders them; [polls] runs
+   a whole sequence of rounds (environment change, then one poll) from the initial connection, for
+   ANY request stream, handler scripts, socket scripts and fuel. Every trace the composer records is a
+   schedule of the event semantics with every guard open that reproduces the composer's state
+   (H1/GatesPollProofs.v: do_ev is the only place the state changes and it fires [step]), at the end
+   of the run and at every poll boundary; so the bounds above hold after every poll of every poll
+   sequence BY THEOREM. The per-case certificate printed by run_C05 (steps_ok / st_eqb) remains as a
+   cross-check of the transcription that is evaluated with the cases. *)
+Theorem C05_poll_traces_are_schedules : forall wbs r h431 fx F items handlers rounds,
+  let c := std_cfg wbs r h431 fx in
+  let x := polls c F (sim_init items handlers) rounds in
+  steps_ok c st_init (rev (trace x)) = true /\ m x = steps c st_init (rev (trace x)).
+Proof. intros. exact (polls_are_schedules c F items handlers rounds). Qed.
+
+Theorem C05_every_poll_is_a_schedule : forall wbs r h431 fx F items handlers rounds,
+  let c := std_cfg wbs r h431 fx in
+  Forall (fun x => steps_ok c st_init (rev (trace x)) = true /\ m x = steps c st_init (rev (trace x)))
+         (polls_list c F (sim_init items handlers) rounds).
+Proof. intros. exact (polls_list_are_schedules c F items handlers rounds). Qed.
+
+Theorem C05_bounds_at_every_poll : forall wbs r h431 fx F items handlers rounds,
+  let c := std_cfg wbs r h431 fx in
+  Forall (fun x =>
+            let s := m x in
+            rb s < H1_MAX_BUFFER_SIZE + r /\
+            lenN (q s) <= H1_MAX_PIPELINED_MESSAGES + (H1_MAX_BUFFER_SIZE + r) / MIN_HEAD /\
+            (forall ch, hch s = Some ch -> ch_len ch < H1_PAYLOAD_MAX_BUFFER_SIZE + H1_MAX_BUFFER_SIZE + r) /\
+            (forall ch, In (QItem (Some ch)) (q s) -> ch_len ch < H1_PAYLOAD_MAX_BUFFER_SIZE + H1_MAX_BUFFER_SIZE + r))
+         (polls_list c F (sim_init items handlers) rounds).
+Proof.
+  intros wbs r h431 fx F items handlers rounds c.
+  eapply Forall_impl; [|exact (polls_list_are_schedules c F items handlers rounds)].
+  intros x [_ E]. cbv zeta. rewrite E.
+  split; [apply C05_read_buf_bound|]. split; [apply C05_queue_bound|].
+  destruct (C05_payload_readahead_bound wbs r h431 fx (rev (trace x))) as (A & B & _).
+  split; [exact A|exact B].
+Qed.
+
+(* non-vacuity: one stalled request, then 40 pipelined requests with a 5-byte body, one segment per
+   poll ending just after a head whose body is outstanding: the queue stops at MAX_PIPELINED_MESSAGES,
+   the rest stays unparsed in read_buf *)
+Example C05_poll_example :
+  let c := std_cfg 32768 H1_LW_BUFFER_SIZE 80 false in
+  let items := IReq 18 None :: repeat (IReq 60 (Some 5)) 40 in
+  let rounds := mk_round 78 false [] [] false :: repeat (mk_round 65 false [] [] false) 39 in
+  let x := polls c 400 (sim_init items [[HPend]]) rounds in
+  bad x = false /\ lenN (q (m x)) = 16 /\ rb (m x) = 1560 /\ taken x = 2613 /\ List.length (trace x) = 229%nat.
 Proof. vm_compute. repeat split. Qed.
